@@ -18,6 +18,7 @@ import re
 
 import tbf
 import witness
+import stages
 from tbf import walk, kids, strip, AnalysisBroken
 
 LEVEL = "other"
@@ -402,6 +403,198 @@ def curve_domains(facts, res):
     res.floor("C06.4", n, 2, "converter call sites")
 
 
+
+# ---------------------------------------------------------------------------------------------- C06.6 grid-coordinate range
+def grid_range(facts, res):
+    """Interval analysis (exact real arithmetic, symbolic in box width W > 0 and cells per dimension N = 2^(height-1) >= 1) of
+    position -> grid coordinate: for every relative position in the CLOSED interval [0, W] the returned coordinate lies in [0, N-1].
+    A particle on the upper face is inside the box (closed) and must land in the last cell, not in a cell outside the grid."""
+    import sympy
+    R = "C06.6.grid-range"
+    W = sympy.Symbol("W", positive=True)
+    N = sympy.Symbol("N", integer=True, positive=True)
+    h = sympy.Symbol("h", integer=True, positive=True)
+    # the leaf width is the box width divided by 2^(height-1): read from the configuration class
+    conf = facts.cls("TbfSpacialConfiguration")
+    ctor = [m for m in facts.methods_of("TbfSpacialConfiguration") if m["kind"] == "CXXConstructor" and tbf.body(m) is not None and len(m["params"]) >= 3]
+    acc = [m for m in facts.methods_of("TbfSpacialConfiguration") if m["name"] == "getLeafWidths" and tbf.body(m) is not None]
+    if not ctor or len(acc) != 1:
+        raise AnalysisBroken("TbfSpacialConfiguration: constructor / getLeafWidths not found")
+    fld = re.search(r"return(\w+);", facts.ntext(tbf.body(acc[0])))
+    ini = [i for i in ctor[0].get("inits", []) if fld and i.get("member") == fld.group(1)]
+    init_txt = " ".join(facts.ntext(c) for c in ini[0].get("c", []) if c) if ini else ""
+    wname, hname = ctor[0]["params"][1]["name"], ctor[0]["params"][0]["name"]
+    if not re.search(r"MulToVec\(%s,RealType\(1\)/RealType\(1<<\(%s-1\)\)\)" % (re.escape(wname), re.escape(hname)), init_txt):
+        raise AnalysisBroken("TbfSpacialConfiguration: leaf width is not initialised as box width / 2^(height-1): %s" % init_txt[:120])
+    res.instance(R, "leaf width", facts.loc(ctor[0]), "leaf width = box width / 2^(height-1)  (%s)" % init_txt[:80])
+
+    def norm(e):
+        return sympy.simplify(sympy.sympify(e).subs(2 ** (h - 1), N).subs(2 ** h, 2 * N))
+
+    class Iv:
+        def __init__(self, lo, hi, hi_open=False, integer=False):
+            self.lo, self.hi, self.hi_open, self.integer = norm(lo), norm(hi), hi_open, integer
+
+        def __repr__(self):
+            return "[%s, %s%s" % (self.lo, self.hi, ")" if self.hi_open else "]")
+
+    def point(e, integer=False):
+        return Iv(e, e, False, integer)
+
+    n = 0
+    for cls in ("TbfMortonSpaceIndex", "TbfHilbertSpaceIndex"):
+        ms = [m for m in facts.methods_of(cls) if m["name"] == "getTreeCoordinate" and tbf.body(m) is not None and not m.get("inst")]
+        if len(ms) != 1:
+            raise AnalysisBroken("%s::getTreeCoordinate not found" % cls)
+        fn = ms[0]
+        fm = stages.FnModel(facts, fn)
+        xdid = fn["params"][0]["did"]
+        rets = []
+
+        def ev(nd, x, depth=0):
+            nd = strip(nd)
+            k = nd.get("k")
+            if depth > 12:
+                raise AnalysisBroken("%s: expression too deep" % fn["qname"])
+            if k == "IntegerLiteral":
+                return point(nd["val"], True)
+            if k == "FloatingLiteral":
+                return point(sympy.nsimplify(nd["val"]))
+            if k == "DeclRefExpr":
+                if nd.get("did") == xdid:
+                    return x
+                d = fm.decls.get(nd.get("did"))
+                if d is not None and d.get("k") == "VarDecl" and kids(d) and nd["did"] not in fm.assigned:
+                    return ev(kids(d)[0], x, depth + 1)
+                raise AnalysisBroken("%s: value of '%s' not understood by the range analysis" % (facts.loc(nd), nd.get("name")))
+            if k in ("CXXStaticCastExpr", "CStyleCastExpr", "CXXFunctionalCastExpr", "CXXUnresolvedConstructExpr"):
+                v = ev(kids(nd)[0], x, depth + 1)
+                t = (nd.get("tw") or nd.get("t") or "")
+                if re.search(r"\b(long|int)\b", t) and not v.integer:
+                    # truncation of a non-negative real: floor
+                    lo = sympy.floor(v.lo) if v.lo != 0 else sympy.Integer(0)
+                    if v.hi.is_integer:
+                        hi = v.hi - 1 if v.hi_open else v.hi
+                    else:
+                        hi = v.hi        # floor(hi) <= hi
+                    return Iv(lo, hi, False, True)
+                return v
+            if k in ("ArraySubscriptExpr", "CXXOperatorCallExpr"):
+                t = facts.ntext(nd)
+                if re.search(r"getBoxWidths\(\)\[\w+\]$", t):
+                    return point(W)
+                if re.search(r"getLeafWidths\(\)\[\w+\]$", t):
+                    return point(W / N)
+                raise AnalysisBroken("%s: `%s` not understood by the range analysis" % (facts.loc(nd), t[:60]))
+            if k in ("CallExpr", "CXXMemberCallExpr"):
+                nm = tbf.callee_name(nd)
+                args = tbf.call_args(nd)
+                if nm == "getTreeHeight":
+                    return point(h, True)
+                if nm in ("min", "max") and len(args) == 2:
+                    a, b = ev(args[0], x, depth + 1), ev(args[1], x, depth + 1)
+                    f = sympy.Min if nm == "min" else sympy.Max
+                    return Iv(f(a.lo, b.lo), f(a.hi, b.hi), a.hi_open and b.hi_open, a.integer and b.integer)
+                if nm in ("floor",) and len(args) == 1:
+                    a = ev(args[0], x, depth + 1)
+                    return Iv(sympy.floor(a.lo) if a.lo != 0 else 0, (a.hi - 1 if a.hi_open else a.hi) if a.hi.is_integer else a.hi, False, True)
+                cands = [g for g in facts.methods_of(cls) if g["name"] == nm and tbf.body(g) is not None and not g.get("inst") and len(g["params"]) == len(args)]
+                if len(cands) == 1:
+                    g = cands[0]
+                    r = [s_ for s_ in kids(tbf.body(g)) if s_.get("k") == "ReturnStmt"]
+                    if len(kids(tbf.body(g))) == 1 and len(r) == 1:
+                        sub = {p["did"]: ev(a, x, depth + 1) for p, a in zip(g["params"], args)}
+                        return ev_sub(kids(r[0])[0], sub, depth + 1)
+                raise AnalysisBroken("%s: call of '%s' not understood by the range analysis" % (facts.loc(nd), nm))
+            if k == "BinaryOperator":
+                op = nd.get("op")
+                a, b = ev(kids(nd)[0], x, depth + 1), ev(kids(nd)[1], x, depth + 1)
+                if op == "<<" and a.lo == a.hi == 1 and b.lo == b.hi:
+                    return point(2 ** b.lo, True)
+                if op in ("+", "-") and b.lo == b.hi:
+                    f = (lambda u: u + b.lo) if op == "+" else (lambda u: u - b.lo)
+                    return Iv(f(a.lo), f(a.hi), a.hi_open, a.integer and b.integer)
+                if op == "/" and b.lo == b.hi and b.lo.is_positive:
+                    return Iv(a.lo / b.lo, a.hi / b.lo, a.hi_open, False)
+                if op == "*" and b.lo == b.hi and b.lo.is_positive:
+                    return Iv(a.lo * b.lo, a.hi * b.lo, a.hi_open, a.integer and b.integer)
+            raise AnalysisBroken("%s: `%s` not understood by the range analysis" % (facts.loc(nd), facts.ntext(nd)[:60]))
+
+        def ev_sub(nd, sub, depth):
+            nd2 = strip(nd)
+            if nd2.get("k") == "DeclRefExpr" and nd2.get("did") in sub:
+                return sub[nd2["did"]]
+            if nd2.get("k") == "BinaryOperator":
+                # re-use ev with parameters bound: evaluate children through ev_sub
+                op = nd2.get("op")
+                a, b = ev_sub(kids(nd2)[0], sub, depth + 1), ev_sub(kids(nd2)[1], sub, depth + 1)
+                if op == "<<" and a.lo == a.hi == 1 and b.lo == b.hi:
+                    return point(2 ** b.lo, True)
+                if op in ("+", "-") and b.lo == b.hi:
+                    f = (lambda u: u + b.lo) if op == "+" else (lambda u: u - b.lo)
+                    return Iv(f(a.lo), f(a.hi), a.hi_open, a.integer and b.integer)
+            if nd2.get("k") in ("CXXFunctionalCastExpr", "CXXUnresolvedConstructExpr", "CXXStaticCastExpr", "ParenExpr") and len(kids(nd2)) == 1:
+                return ev_sub(kids(nd2)[0], sub, depth + 1)
+            return ev(nd, Iv(0, W), depth + 1)
+
+        def run(s, x):
+            """returns False when every path returned"""
+            if s is None:
+                return True
+            k = s.get("k")
+            if k == "CompoundStmt":
+                for c in kids(s):
+                    if not run(c, x):
+                        return False
+                return True
+            if k == "ReturnStmt":
+                rets.append((s, ev(kids(s)[0], x), x))
+                return False
+            if k == "IfStmt":
+                c = s["c"]
+                cond, then, els = (c[-3], c[-2], c[-1]) if len(c) >= 3 else (c[0], c[1], None)
+                cd = strip(cond)
+                xt, xe = x, x
+                if cd.get("k") == "BinaryOperator" and cd.get("op") in ("==", ">=", "<", ">", "<=") and any(strip(z).get("did") == xdid for z in kids(cd)):
+                    other = [z for z in kids(cd) if strip(z).get("did") != xdid][0]
+                    e = ev(other, x)
+                    op = cd["op"]
+                    if strip(kids(cd)[1]).get("did") == xdid:
+                        op = {"==": "==", ">=": "<=", "<=": ">=", "<": ">", ">": "<"}[op]
+                    if e.lo == e.hi and sympy.simplify(e.lo - x.hi) == 0 and not x.hi_open:
+                        if op in ("==", ">="):
+                            xt, xe = point(e.lo), Iv(x.lo, x.hi, True)
+                        elif op == "<":
+                            xt, xe = Iv(x.lo, x.hi, True), point(e.lo)
+                a = run(then, xt)
+                b = run(els, xe) if els is not None else True
+                if not a and not b:
+                    return False
+                x.lo, x.hi, x.hi_open = (xe.lo, xe.hi, xe.hi_open) if (not a and b) else (x.lo, x.hi, x.hi_open)
+                return True
+            if k in ("DeclStmt", "NullStmt", "ParenExpr") or (k == "CXXStaticCastExpr"):
+                return True
+            e = strip(s)
+            if e.get("k") in ("ParenExpr", "CXXStaticCastExpr", "CallExpr") :
+                return True      # assert(...) expands to a void expression
+            raise AnalysisBroken("%s: statement not understood by the range analysis: %s" % (facts.loc(s), facts.ntext(s)[:60]))
+        run(fm.body, Iv(0, W))
+        if not rets:
+            raise AnalysisBroken("%s: no return reached" % fn["qname"])
+        for s_, iv, xs in rets:
+            n += 1
+            res.instance(R, "%s return@%d" % (fn["qname"], s_["l"][1]), facts.loc(s_), "relative position in %s -> coordinate in %s (N = cells per dimension)" % (xs, iv))
+            over = norm(iv.hi - (N - 1))
+            under = norm(iv.lo)
+            grid = [{N: v, W: w} for v in (1, 2, 4, 1024) for w in (1, sympy.Rational(7, 2))]
+            too_high = any(over.subs(g) > 0 for g in grid)
+            too_low = any(under.subs(g) < 0 for g in grid)
+            if too_high or too_low:
+                res.violation(R, tbf.rel(facts.path_of(s_)), fn["qname"], "return@%d" % s_["l"][1], s_["l"][1],
+                              "for a relative position in %s the returned grid coordinate ranges over %s, outside [0, N-1] (N = 2^(height-1) cells per dimension): a particle inside the closed box is put in a leaf outside the grid" % (xs, iv))
+    res.floor(R, n, 2, "returns of getTreeCoordinate")
+
+
 def run(res, tier):
     facts = tbf.scan("core")
     res.units.append("umbrella TU 'core': TbfMemoryBlock, group constructors, shipped kernels, ordering classes; witnesses c06_narrow, c06_probe")
@@ -412,6 +605,8 @@ def run(res, tier):
     zero_init(facts, res)
     res.rule("C06.5 group constructor: slot p stores orig(p) = groupInfo.getParticleIndex(p) and the data row of input particle orig(p), value by value")
     copy_provenance(facts, res)
+    res.rule("C06.6 grid range (interval analysis, exact arithmetic, symbolic in box width and cells per dimension): every relative position of the closed box maps to a coordinate in [0, N-1]")
+    grid_range(facts, res)
     narrowing(res, tier)
     k = constcast_lint(facts, res)
     curve_domains(facts, res)
